@@ -18,6 +18,17 @@ UT = "func_adl/util_types.py"
 EDS = "func_adl/event_dataset.py"
 
 MUTANTS = {
+    "C03": [
+        {"name": "tokens-till-ignores-square-brackets", "edits": [(UA, "                elif t.string == \"[\":\n                    brackets += 1\n                elif t.string == \"]\":\n                    brackets -= 1\n", "")]},
+        {"name": "first-good-lambda-wins", "edits": [(UA, "        if len(good_lambdas) > 1:\n            raise ValueError(", "        if len(good_lambdas) > 99:\n            raise ValueError(")]},
+        {"name": "caller-name-filter-skipped", "edits": [(UA, "            lambdas_on_a_line[caller_name]\n            if caller_name is not None\n            else", "            lambdas_on_a_line[caller_name]\n            if caller_name is not None and False\n            else")]},
+        {"name": "no-backtracking", "edits": [(UA, "        if func_name is None:\n            lambda_line -= 1\n", "        if func_name is None:\n            break\n")]},
+        {"name": "newline-detection-inverted", "edits": [(UA, "        if t.type == tokenize.NEWLINE or t.string == \"\\n\":\n            saw_new_line = True", "        if t.type == tokenize.NEWLINE:\n            saw_new_line = True")]},
+        {"name": "one-line-def-again", "edits": [(UA, "            [\"lambda\"] if is_lambda else [\"def\", \"lambda\"]", "            [\"def\", \"lambda\"]")]},
+        {"name": "arg-match-by-count", "edits": [(UA, "            lda for lda in lambdas_to_search if lambda_arg_list(lda) == caller_arg_list", "            lda for lda in lambdas_to_search if len(lambda_arg_list(lda)) == len(caller_arg_list)")]},
+        {"name": "last-lambda-on-line-only", "edits": [(UA, "            lambdas_on_a_line[func_name.string if func_name is not None else None].append(lda)", "            lambdas_on_a_line[func_name.string if func_name is not None else None] = [lda]")]},
+        {"name": "comments-kept", "edits": [(UA, "            # Ignore comments\n            if t.type == tokenize.COMMENT:\n                continue\n", "")], "equivalent": "comments are dropped again by ast.parse"},
+    ],
     "C12": [
         {"name": "executor-walks-last-arg", "edits": [(OS_, "            node = node.args[0]  # type: ignore", "            node = node.args[-1] if isinstance(node.args[-1], ast.Call) else node.args[0]  # type: ignore")]},
         {"name": "uncleaned-ast", "edits": [(OS_, "        return await exe(remove_empty_metadata(self._q_ast), title)", "        return await exe(self._q_ast, title)")]},
